@@ -20,10 +20,43 @@ fn peer_addr(p: u32) -> IpAddr {
 fn nh_addr(a: u32) -> Ipv4Addr {
     Ipv4Addr::new(10, 9, 0, a as u8)
 }
+/// address ids: below 100 an IPv4 address 10.9.0.<id>, from 100 an IPv6 address 2001:db8::<id>
 fn nh_id(a: IpAddr) -> i128 {
     match a {
         IpAddr::V4(v) => v.octets()[3] as i128,
-        IpAddr::V6(_) => -7,
+        IpAddr::V6(v) => v.segments()[7] as i128,
+    }
+}
+fn nh_addr6(a: u32) -> std::net::Ipv6Addr {
+    std::net::Ipv6Addr::new(0x2001, 0xdb8, 0, 0, 0, 0, 0, a as u16)
+}
+fn addr_of_id(a: u32) -> IpAddr {
+    if a < 100 {
+        IpAddr::V4(nh_addr(a))
+    } else {
+        IpAddr::V6(nh_addr6(a))
+    }
+}
+/// next hop forms: [0,a] IPv4, [1,a] 16-byte IPv6, [2,a,l] 32-byte IPv6 global + link-local
+fn nh_of_val(v: &Val) -> bgp::Nexthop {
+    match v.at(0).u32() {
+        0 => bgp::Nexthop::V4(nh_addr(v.at(1).u32())),
+        1 => bgp::Nexthop::V6(nh_addr6(v.at(1).u32())),
+        _ => bgp::Nexthop::V6LinkLocal(
+            nh_addr6(v.at(1).u32()),
+            std::net::Ipv6Addr::new(0xfe80, 0, 0, 0, 0, 0, 0, v.at(2).u16()),
+        ),
+    }
+}
+fn nh_form(n: bgp::Nexthop) -> Val {
+    match n {
+        bgp::Nexthop::V4(a) => Val::L(vec![Val::I(0), Val::I(nh_id(IpAddr::V4(a)))]),
+        bgp::Nexthop::V6(a) => Val::L(vec![Val::I(1), Val::I(nh_id(IpAddr::V6(a)))]),
+        bgp::Nexthop::V6LinkLocal(a, l) => Val::L(vec![
+            Val::I(2),
+            Val::I(nh_id(IpAddr::V6(a))),
+            Val::I(l.segments()[7] as i128),
+        ]),
     }
 }
 fn plain_net(id: u32) -> packet::bgp::Ipv4Net {
@@ -180,7 +213,7 @@ impl World {
 }
 
 fn nh_val(n: Option<bgp::Nexthop>) -> Val {
-    Val::opt(n.map(|x| Val::I(nh_id(x.addr()))))
+    Val::opt(n.map(nh_form))
 }
 
 const FAMS: [Family; 2] = [Family::IPV4, Family::IPV4_VPN];
@@ -286,7 +319,7 @@ fn mk_policy(k: usize, rules: &[Val]) -> Arc<table::PolicyAssignment> {
             2 => (
                 table::Disposition::Accept,
                 table::Actions {
-                    nexthop: Some(table::NexthopAction::Address(IpAddr::V4(nh_addr(act.at(1).u32())))),
+                    nexthop: Some(table::NexthopAction::Address(addr_of_id(act.at(1).u32()))),
                     ..table::Actions::default()
                 },
             ),
@@ -353,7 +386,7 @@ fn fib_op(w: &mut World, op: &Val) {
         0 => {
             let s = w.src(op.at(1).u32(), op.at(2).u32());
             let (f, n) = mk_net(op.at(3).u32(), op.at(4).u32());
-            let nh = op.at(6).list().first().map(|a| bgp::Nexthop::V4(nh_addr(a.u32())));
+            let nh = op.at(6).list().first().map(nh_of_val);
             let tok = op.at(7).u32();
             let attr = w.attrs.iter().find(|(t, _)| *t == tok).expect("attr token").1.clone();
             w.tm.insert_route(
@@ -388,7 +421,7 @@ fn fib_op(w: &mut World, op: &Val) {
         4 => w.tm.drop_stale_families(peer_addr(op.at(1).u32()), &fams),
         5 => w.tm.mark_llgr_stale(peer_addr(op.at(1).u32()), &fams),
         6 => w.tm.drop_llgr_stale_families(peer_addr(op.at(1).u32()), &fams),
-        7 => w.tm.update_nexthop_validity(IpAddr::V4(nh_addr(op.at(1).u32())), op.at(2).bool()),
+        7 => w.tm.update_nexthop_validity(addr_of_id(op.at(1).u32()), op.at(2).bool()),
         8 => {
             let k = op.at(1).usize();
             if k == 0 {
